@@ -2654,8 +2654,8 @@ impl LineBuf {
 							continue
 						}
 						Motion::ForwardChar => {
-							// 'cl' is evaluated when insert mode (which lets the cursor go anywhere) is already entered
-							let line_bound = !self.is_selecting() && (self.cursor.exclusive || verb == Some(&Verb::Change));
+							// 'cl' and 'a' are evaluated when insert mode (which lets the cursor go anywhere) is already entered
+							let line_bound = !self.is_selecting() && (self.cursor.exclusive || matches!(verb, Some(&Verb::Change) | Some(&Verb::InsertMode)));
 							if line_bound && self.grapheme_at(target.get()) == Some("\n") {
 								// On the newline of an empty line: there is nothing to move over
 								if target.get() == self.cursor.get() {
